@@ -37,3 +37,12 @@ Check fold_identity : forall t k, fold_id k t = t.
 Theorem subst_wellkinded_no_panic : forall t ps k, params_cover ps k t -> exists t', subst ps k t = Ok t'.
 Proof. exact subst_no_panic_lemma. Qed.
 Check subst_wellkinded_no_panic : forall t ps k, params_cover ps k t -> exists t', subst ps k t = Ok t'.
+
+(** Further laws of the same operations (beyond the property's wording). *)
+Theorem shift_in_shift_in : forall t n m k, shift_in m k (shift_in n k t) = shift_in (n + m) k t.
+Proof. exact shift_in_shift_in_lemma. Qed.
+Check shift_in_shift_in : forall t n m k, shift_in m k (shift_in n k t) = shift_in (n + m) k t.
+
+Theorem subst_shift_cancel : forall t ps k, subst ps k (shift_in 1 k t) = Ok t.
+Proof. exact subst_shift_cancel_lemma. Qed.
+Check subst_shift_cancel : forall t ps k, subst ps k (shift_in 1 k t) = Ok t.
